@@ -169,3 +169,302 @@ Lemma trunc_collision :
   file_name 0 3 3 6 (pct 10) (pct 10) (pct 10) (pct 28) false <>
   file_name 0 3 3 6 (pct 10) (pct 10) (pct 10) (pct 29) false.
 Proof. vm_compute. discriminate. Qed.
+
+(** * C15: parameter checks *)
+From Coq Require Import QArith Lqa.
+
+Lemma qin_false : forall p : Q, (Qle_bool p 0 || Qle_bool 1 p) = false <-> (0 < p /\ p < 1)%Q.
+Proof.
+  intros p. rewrite orb_false_iff. split.
+  - intros [A B]. split; apply Qnot_le_lt; intro H; apply Qle_bool_iff in H; congruence.
+  - intros [A B]. split; apply not_true_is_false; intro H; apply Qle_bool_iff in H;
+      [apply (Qlt_not_le _ _ A H)|apply (Qlt_not_le _ _ B H)].
+Qed.
+
+Lemma qin_true : forall p : Q, (Qle_bool p 0 || Qle_bool 1 p) = true <-> ~ (0 < p /\ p < 1)%Q.
+Proof.
+  intros p. rewrite <- qin_false. destruct (Qle_bool p 0 || Qle_bool 1 p); split; congruence.
+Qed.
+
+Ltac ci_norm :=
+  repeat match goal with
+  | H : (_ <? _)%Z = true |- _ => apply Z.ltb_lt in H
+  | H : (_ <? _)%Z = false |- _ => apply Z.ltb_ge in H
+  | H : (_ <=? _)%Z = true |- _ => apply Z.leb_le in H
+  | H : (_ <=? _)%Z = false |- _ => apply Z.leb_gt in H
+  | H : (Qle_bool _ 0 || Qle_bool 1 _) = true |- _ => apply qin_true in H
+  | H : (Qle_bool _ 0 || Qle_bool 1 _) = false |- _ => apply qin_false in H
+  end.
+
+Ltac ci_split :=
+  unfold check_input, check_input_gen;
+  repeat match goal with
+  | |- context [if ?b then _ else _] => let E := fresh "E" in destruct b eqn:E
+  end; ci_norm.
+
+Ltac ci_close :=
+  split; [intros X; try discriminate X; repeat split; try tauto; try lia
+         |intros X; try reflexivity; exfalso; intuition lia].
+
+Lemma check_input_iff : forall seed w l (prb plb plt ptb : Q) m,
+  check_input seed w l prb plb plt ptb m = Ok tt <->
+  (0 <= seed /\ 1 <= w /\ 1 <= l /\ 1 <= m)%Z /\
+  (0 < prb /\ prb < 1)%Q /\ (0 < plb /\ plb < 1)%Q /\ (0 < plt /\ plt < 1)%Q /\ (0 < ptb /\ ptb < 1)%Q.
+Proof. intros. ci_split; ci_close. Qed.
+
+(* which message: the first failing check in the order seed, width, length, robot, light,
+   loose tile, tile break, maximum reward *)
+Definition inside (p : Q) : Prop := (0 < p /\ p < 1)%Q.
+
+Lemma check_input_messages : forall seed w l (prb plb plt ptb : Q) m,
+  let r := check_input seed w l prb plb plt ptb m in
+  (r = ValueErr "The seed must be a nonnegative integer" <-> (seed < 0)%Z) /\
+  (r = ValueErr "The width must be a positive integer" <-> (0 <= seed /\ w <= 0)%Z) /\
+  (r = ValueErr "The length must be a positive integer" <-> (0 <= seed /\ 1 <= w /\ l <= 0)%Z) /\
+  (r = ValueErr "The failure probability of the robot must be a float in (0,1)" <->
+     (0 <= seed /\ 1 <= w /\ 1 <= l)%Z /\ ~ inside prb) /\
+  (r = ValueErr "The failure probability of the light must be a float in (0,1)" <->
+     (0 <= seed /\ 1 <= w /\ 1 <= l)%Z /\ inside prb /\ ~ inside plb) /\
+  (r = ValueErr "The probability of a tile being loose must be a float in (0,1)" <->
+     (0 <= seed /\ 1 <= w /\ 1 <= l)%Z /\ inside prb /\ inside plb /\ ~ inside plt) /\
+  (r = ValueErr "The probability of a tile breaking must be a float in (0,1)" <->
+     (0 <= seed /\ 1 <= w /\ 1 <= l)%Z /\ inside prb /\ inside plb /\ inside plt /\ ~ inside ptb) /\
+  (r = ValueErr "The maximum reward must be a positive integer" <->
+     (0 <= seed /\ 1 <= w /\ 1 <= l)%Z /\ inside prb /\ inside plb /\ inside plt /\ inside ptb /\ (m <= 0)%Z).
+Proof.
+  intros. subst r. unfold inside.
+  ci_split; repeat match goal with |- _ /\ _ => split end;
+    (split; intros X; [try discriminate X; try tauto; try lia; try (intuition lia)|try reflexivity; exfalso; intuition lia]).
+Qed.
+
+(* never a crash, never anything but the eight messages *)
+Lemma check_input_total : forall seed w l (prb plb plt ptb : Q) m,
+  match check_input seed w l prb plb plt ptb m with
+  | Ok _ | ValueErr _ => True | _ => False end.
+Proof. intros. ci_split; exact I. Qed.
+
+(* main: a refused parameter set never reaches the write *)
+Lemma main_refuses : forall seed w l m plt ptb prb plb fd msg,
+  check_input_F seed w l prb plb plt ptb m = ValueErr msg ->
+  gen_main_F seed w l m plt ptb prb plb fd = ValueErr msg.
+Proof. intros. unfold gen_main_F. rewrite H. reflexivity. Qed.
+
+(** * C15: the reward formula *)
+Local Open Scope Q_scope.
+
+Lemma hpow_S : forall k, hpow (S k) == (1 # 2) * hpow k.
+Proof. intros. simpl. reflexivity. Qed.
+
+Lemma hpow_pos : forall k, 0 < hpow k.
+Proof. induction k; [reflexivity|]. rewrite hpow_S. lra. Qed.
+
+Lemma hpow_anti : forall a b, (a <= b)%nat -> hpow b <= hpow a.
+Proof.
+  intros a b H. induction H; [lra|]. rewrite hpow_S. pose proof (hpow_pos m). lra.
+Qed.
+
+Lemma hpow_le1 : forall k, hpow k <= 1.
+Proof. intros. apply (hpow_anti 0 k). lia. Qed.
+
+Lemma Qle_bool_false : forall a b, Qle_bool a b = false <-> b < a.
+Proof.
+  intros. split; intro H.
+  - apply Qnot_le_lt. intro C. apply Qle_bool_iff in C. congruence.
+  - apply not_true_is_false. intro C. apply Qle_bool_iff in C. exact (Qlt_not_le _ _ H C).
+Qed.
+
+(* floor(-log2 y) is the k with 2^-(k+1) < y <= 2^-k *)
+Lemma floor_neg_log2_spec : forall fuel y, hpow fuel < y -> y <= 1 ->
+  let k := floor_neg_log2 fuel y in (k < fuel)%nat /\ hpow (S k) < y /\ y <= hpow k.
+Proof.
+  induction fuel as [|f IH]; intros y Hl Hu.
+  - change (hpow 0) with 1%Q in Hl. lra.
+  - cbn [floor_neg_log2]. rewrite hpow_S in Hl. destruct (Qle_bool y (1 # 2)) eqn:E.
+    + apply Qle_bool_iff in E.
+      destruct (IH (2 * y)) as [A [B C]]; [lra|lra|].
+      split; [lia|]. rewrite hpow_S in B. rewrite !hpow_S. split; lra.
+    + apply Qle_bool_false in E. split; [lia|]. rewrite hpow_S. change (hpow 0) with 1%Q. split; lra.
+Qed.
+
+Lemma bracket_unique : forall y k k',
+  hpow (S k) < y -> y <= hpow k -> hpow (S k') < y -> y <= hpow k' -> k = k'.
+Proof.
+  intros y k k' A B C D.
+  destruct (Nat.lt_trichotomy k k') as [H|[H|H]]; [exfalso|assumption|exfalso].
+  - pose proof (hpow_anti (S k) k' H). lra.
+  - pose proof (hpow_anti (S k') k H). lra.
+Qed.
+
+Lemma floor_neg_log2_exact : forall k fuel y, y == hpow k -> (k < fuel)%nat -> floor_neg_log2 fuel y = k.
+Proof.
+  induction k as [|k IH]; intros [|f] y E L; try lia; simpl.
+  - destruct (Qle_bool y (1 # 2)) eqn:B; [|reflexivity]. apply Qle_bool_iff in B. simpl in E. lra.
+  - destruct (Qle_bool y (1 # 2)) eqn:B.
+    + f_equal. apply IH; [|lia]. rewrite E, hpow_S. field.
+    + apply Qle_bool_false in B. rewrite hpow_S in E. pose proof (hpow_le1 k). lra.
+Qed.
+
+Lemma yval_range : forall m x, 0 < x -> x < 1 -> hpow (S m) < yval m x /\ yval m x < 1.
+Proof.
+  intros m x H0 H1. unfold yval.
+  pose proof (hpow_pos (S m)) as P. pose proof (hpow_pos m) as P'. pose proof (hpow_le1 m) as L.
+  assert (hpow (S m) <= 1 # 2) by (rewrite hpow_S; lra).
+  set (h := hpow (S m)) in *. nra.
+Qed.
+
+(* the reward is the bracket index of y, and lies in [0, max_reward] *)
+Lemma reward_spec : forall m x, 0 < x -> x < 1 ->
+  let k := reward_of m x in (k <= m)%nat /\ hpow (S k) < yval m x /\ yval m x <= hpow k.
+Proof.
+  intros m x H0 H1. destruct (yval_range m x H0 H1) as [A B].
+  unfold reward_of.
+  destruct (floor_neg_log2_spec (S (S m)) (yval m x)) as [C [D E]].
+  - pose proof (hpow_anti (S m) (S (S m)) ltac:(lia)). lra.
+  - lra.
+  - cbv zeta. split; [|split; assumption].
+    destruct (Nat.le_gt_cases (floor_neg_log2 (S (S m)) (yval m x)) m) as [|G]; [assumption|exfalso].
+    pose proof (hpow_anti (S m) _ G). lra.
+Qed.
+
+(* a draw of exactly 0.0 (possible, probability 2^-53) gives max_reward + 1: the hypothesis 0 < u
+   of the range theorem is needed *)
+Lemma reward_zero_draw : forall m, reward_of m 0 = S m.
+Proof.
+  intros. unfold reward_of. apply floor_neg_log2_exact; [|lia]. unfold yval. ring.
+Qed.
+
+Local Close Scope Q_scope.
+
+(** * C15: board shape *)
+
+Lemma nth_map_seq : forall {A} (f : nat -> A) n s i d, i < n -> nth i (map f (seq s n)) d = f (s + i).
+Proof.
+  intros A f n. induction n; intros s i d H; [lia|]. simpl. destruct i.
+  - f_equal. lia.
+  - rewrite IHn by lia. f_equal. lia.
+Qed.
+
+Lemma in_map_seq : forall {A} (f : nat -> A) n x, In x (map f (seq 0 n)) -> exists i, i < n /\ x = f i.
+Proof.
+  intros A f n x H. apply in_map_iff in H. destruct H as [i [E I]]. apply in_seq in I. exists i. split; [lia|auto].
+Qed.
+
+Lemma set_nth_length : forall k v l, List.length (set_nth k v l) = List.length l.
+Proof. intros k v l. revert k. induction l; intros [|k]; simpl; auto. Qed.
+
+Lemma set_nth_forall : forall (Pv : nat -> Prop) k v l, Pv v -> Forall Pv l -> Forall Pv (set_nth k v l).
+Proof.
+  intros Pv k v l Hv H. revert k. induction H; intros [|k]; simpl; auto.
+Qed.
+
+Lemma set_nth_in : forall k v l, k < List.length l -> In v (set_nth k v l).
+Proof.
+  intros k v l. revert k. induction l; intros [|k] H; simpl in *; try lia; auto.
+  right. apply IHl. lia.
+Qed.
+
+Section BoardShape.
+  Variable u : nat -> Q.
+  Variable choices : nat -> list nat.
+  Variable rr : nat -> nat.
+  Variables L W m : nat.
+  Variable p : Q.
+  Variable fd : bool.
+  Hypothesis u_range : forall n, (0 < u n /\ u n < 1)%Q.
+  Hypothesis choices_range : forall i, i < L ->
+    List.length (choices i) = W /\ Forall (fun a => a < (if fd then 4 else 3)) (choices i).
+  Hypothesis rr_range : fd = true -> forall i, i < L -> rr i < W.
+
+  Lemma board_shape_holds : board_shape L W m fd (gen_rnd_board u choices rr L W p m fd).
+  Proof.
+    unfold gen_rnd_board, board_shape, grid, get_random_moves.
+    rewrite !map_length, !seq_length.
+    split; [split; [reflexivity|]|split; [split; [reflexivity|]|split; [split; [reflexivity|]|]]].
+    - intros row H. apply in_map_seq in H. destruct H as [i [Hi E]]. subst row.
+      destruct (choices_range i Hi) as [A B]. destruct fd.
+      + split; [now rewrite set_nth_length|]. apply set_nth_forall; [lia|assumption].
+      + auto.
+    - intros row H. apply in_map_seq in H. destruct H as [i [Hi E]]. subst row.
+      rewrite map_length, seq_length. split; [reflexivity|].
+      apply Forall_forall. intros r H. apply in_map_seq in H. destruct H as [j [Hj E]]. subst r.
+      unfold tile_reward. destruct (u_range (2 * (i * W + j))) as [A B].
+      exact (proj1 (reward_spec m _ A B)).
+    - intros row H. apply in_map_seq in H. destruct H as [i [Hi E]]. subst row.
+      rewrite map_length, seq_length. split; [reflexivity|].
+      apply Forall_forall. intros r H. apply in_map_seq in H. destruct H as [j [Hj E]]. subst r.
+      unfold tile_loose. destruct (Qle_bool _ _); lia.
+    - intros row H. apply in_map_seq in H. destruct H as [i [Hi E]]. subst row.
+      destruct (choices_range i Hi) as [A B]. destruct fd eqn:F.
+      + split; [reflexivity|]. intros _. apply set_nth_in. rewrite A. now apply rr_range.
+      + split; [|discriminate]. intros H. exfalso.
+        rewrite Forall_forall in B. specialize (B 3 H). lia.
+  Qed.
+
+  (* entry (i, j) of each grid, in terms of the draws *)
+  Lemma board_entries : forall i j, i < L -> j < W ->
+    let '(moves, rewards, loose) := gen_rnd_board u choices rr L W p m fd in
+    (nth j (nth i loose []) 0 = 1 <-> (u (2 * (i * W + j) + 1) < p)%Q) /\
+    (nth j (nth i loose []) 0 = 0 <-> (p <= u (2 * (i * W + j) + 1))%Q) /\
+    (let k := nth j (nth i rewards []) 0 in
+     let y := yval m (u (2 * (i * W + j))) in (hpow (S k) < y /\ y <= hpow k)%Q).
+  Proof.
+    intros i j Hi Hj. unfold gen_rnd_board.
+    rewrite !(nth_map_seq _ L 0 i) by assumption. rewrite !(nth_map_seq _ W 0 j) by assumption. simpl plus.
+    unfold tile_loose, tile_reward.
+    destruct (u_range (2 * (i * W + j))) as [A B].
+    pose proof (reward_spec m _ A B) as R. cbv zeta in R.
+    split; [|split; [|tauto]].
+    - destruct (Qle_bool p _) eqn:E.
+      + apply Qle_bool_iff in E. split; [discriminate|]. intro C. exfalso. exact (Qlt_not_le _ _ C E).
+      + apply Qle_bool_false in E. tauto.
+    - destruct (Qle_bool p _) eqn:E.
+      + apply Qle_bool_iff in E. tauto.
+      + apply Qle_bool_false in E. split; [discriminate|]. intro C. exfalso. exact (Qlt_not_le _ _ E C).
+  Qed.
+End BoardShape.
+
+(* the boolean used by the check is the proposition *)
+Lemma rows_ok_iff : forall L W (okb : nat -> bool) (okp : nat -> Prop) g,
+  (forall v, okb v = true <-> okp v) -> (rows_ok L W okb g = true <-> grid L W okp g).
+Proof.
+  intros L W okb okp g R. unfold rows_ok, grid. rewrite andb_true_iff, Nat.eqb_eq, forallb_forall.
+  split; intros [A B]; (split; [assumption|]); intros row H; specialize (B row H).
+  - rewrite andb_true_iff, Nat.eqb_eq, forallb_forall in B. destruct B as [B C]. split; [assumption|].
+    apply Forall_forall. intros v Hv. apply R. auto.
+  - destruct B as [B C]. rewrite andb_true_iff, Nat.eqb_eq, forallb_forall. split; [assumption|].
+    rewrite Forall_forall in C. intros v Hv. apply R. auto.
+Qed.
+
+Lemma board_shape_ok_iff : forall L W m fd b, board_shape_ok L W m fd b = true <-> board_shape L W m fd b.
+Proof.
+  intros L W m fd [[moves rewards] loose]. unfold board_shape_ok, board_shape.
+  rewrite !andb_true_iff.
+  rewrite (rows_ok_iff L W _ (fun a => a < (if fd then 4 else 3)) moves) by (intro; apply Nat.ltb_lt).
+  rewrite (rows_ok_iff L W _ (fun r => r <= m) rewards) by (intro; apply Nat.leb_le).
+  rewrite (rows_ok_iff L W _ (fun t => t <= 1) loose) by (intro; apply Nat.leb_le).
+  rewrite forallb_forall.
+  assert (X : forall row, Bool.eqb (existsb (Nat.eqb 3) row) fd = true <-> (In 3 row <-> fd = true)).
+  { intros row. rewrite eqb_true_iff. split.
+    - intros E. rewrite <- E. rewrite existsb_exists. split.
+      + intros H. exists 3. split; [assumption|reflexivity].
+      + intros [x [H1 H2]]. apply Nat.eqb_eq in H2. now subst x.
+    - intros [H1 H2]. destruct fd.
+      + apply existsb_exists. exists 3. split; [auto|reflexivity].
+      + apply not_true_is_false. intros E. apply existsb_exists in E. destruct E as [x [E1 E2]].
+        apply Nat.eqb_eq in E2. subst x. specialize (H1 E1). discriminate. }
+  split.
+  - intros [[[A B] C] D]. split; [exact A|split; [exact B|split; [exact C|]]]. intros row H. apply X. auto.
+  - intros [A [B [C D]]]. split; [split; [split|]|]; try assumption. intros row H. apply X. auto.
+Qed.
+
+(* the board is a function of the draws and the parameters (pointwise equal sources suffice) *)
+Lemma board_ext : forall u u' choices choices' rr rr' L W p m fd,
+  (forall n, u n = u' n) -> (forall i, choices i = choices' i) -> (forall i, rr i = rr' i) ->
+  gen_rnd_board u choices rr L W p m fd = gen_rnd_board u' choices' rr' L W p m fd.
+Proof.
+  intros u u' c c' rr rr' L W p m fd Hu Hc Hr. unfold gen_rnd_board, get_random_moves.
+  f_equal; [f_equal|]; apply map_ext; intros i.
+  - now rewrite Hc, Hr.
+  - apply map_ext; intros j. unfold tile_reward. now rewrite Hu.
+  - apply map_ext; intros j. unfold tile_loose. now rewrite Hu.
+Qed.
